@@ -73,7 +73,19 @@ async def one_case(case):
                         expected[k] = v
             else:
                 expected[str(ra)] = files[str(ra)]
-        repo = lib.Repo(d, concurrent=case['concurrent'])
+        backend = None
+        if case.get('slow_backend'):
+            # a backend with latency: every stream upload takes longer than any polling interval / put timeout inside snapshot, and
+            # there are more chunks than any queue between the producer and the workers holds
+            from replicat.backends.local import Local as _Local
+            import time as _time
+
+            class Slow(_Local):
+                def upload_stream(self, name, stream, length, chunk_size=128000):
+                    _time.sleep(case['slow_backend'])
+                    return super().upload_stream(name, stream, length, chunk_size)
+            backend = Slow(d / 'repo')
+        repo = lib.Repo(d, backend=backend, concurrent=case['concurrent'])
         await repo.init(encrypted=case['encrypted'], cipher=case.get('cipher', 'aes_gcm'),
                         hasher=case.get('hasher'), min_length=case['min'], max_length=case['max'])
         r = await repo.open()
@@ -159,6 +171,9 @@ def cases(tier, seed):
     out.append(dict(base, min=1 << 20, max=1 << 21, sizes=[(1 << 24) + 70001, 3, 1 << 24], concurrent=3))
     # ... and with chunks much smaller than the read block (hundreds of chunks complete while the file is still being read)
     out.append(dict(base, min=1 << 15, max=1 << 16, sizes=[(1 << 24) + 70001, 5, (1 << 20) + 1], concurrent=2))
+    # a SLOW backend and more chunks than the producer/worker queue holds (10 x concurrency)
+    out.append(dict(base, sizes=[2500, 900], concurrent=1, slow_backend=0.04))
+    out.append(dict(base, sizes=[3000, 5, 700], concurrent=2, slow_backend=0.06, encrypted=True))
     # a directory reachable by two routes inside the argument (symlinked sibling)
     out.append(dict(base, sizes=[30, 70, 5, 0], nested=True, alias=True))
     out.append(dict(base, sizes=[64, 1], nested=True, alias=True, encrypted=True, concurrent=1))
